@@ -7,6 +7,7 @@ mod calls;
 mod code;
 mod cx;
 mod expr;
+mod inv;
 mod stmts;
 mod tr;
 
@@ -63,7 +64,9 @@ const PLAN: &[(&str, &str, &[&str])] = &[
             "NodeId::remove_subtree",
         ],
     ),
-    ("GenTrav", "From IT Require Import SrcSupport.\nFrom IT.gen Require Import GenStamp.", &["NodeEdge::next_traverse", "NodeEdge::prev_traverse"]),
+    ("GenTrav", "From IT Require Import SrcSupport.\nFrom IT.gen Require Import GenStamp GenAlloc.", &["NodeEdge::next_traverse", "NodeEdge::prev_traverse", "IterArm::next", "DeArm::next", "DeArm::next_back", "Traverse::next_of_next", "Traverse::next", "ReverseTraverse::next_of_next", "ReverseTraverse::next",
+        "Ancestors::new", "Ancestors::nextf", "Predecessors::new", "Predecessors::nextf", "PrecedingSiblings::new", "PrecedingSiblings::nextf", "PrecedingSiblings::backf",
+        "FollowingSiblings::new", "FollowingSiblings::nextf", "FollowingSiblings::backf", "Children::new", "Children::nextf", "Children::backf", "ReverseChildren::new", "ReverseChildren::nextf"]),
 ];
 
 struct FnSrc {
@@ -81,9 +84,43 @@ fn collect(file: &File, out: &mut HashMap<String, FnSrc>) {
                 }
                 out.insert(f.sig.ident.to_string(), FnSrc { sig: f.sig.clone(), block: (*f.block).clone(), impl_ty: None });
             }
+            Item::Macro(m) if m.ident.as_ref().map_or(false, |i| i == "new_iterator") => {
+                // the arms of new_iterator!: the one implementing DoubleEndedIterator is DeArm, the other
+                // one implementing Iterator is IterArm
+                for arm in inv::macro_arms(m).into_iter().flatten() {
+                    let is_de = arm.items.iter().any(|it| matches!(it, Item::Impl(im) if im.trait_.as_ref().map_or(false, |t| path_str(&t.1).ends_with("DoubleEndedIterator"))));
+                    let is_it = arm.items.iter().any(|it| matches!(it, Item::Impl(im) if im.trait_.as_ref().map_or(false, |t| path_str(&t.1) == "Iterator")));
+                    if !is_it {
+                        continue;
+                    }
+                    let tyname = if is_de { "DeArm" } else { "IterArm" };
+                    for it in &arm.items {
+                        if let Item::Impl(im) = it {
+                            if im.trait_.is_none() {
+                                continue;
+                            }
+                            for ii in &im.items {
+                                if let ImplItem::Fn(f) = ii {
+                                    let key = format!("{}::{}", tyname, f.sig.ident);
+                                    if out.contains_key(&key) {
+                                        out.insert(format!("{}#dup", key), FnSrc { sig: f.sig.clone(), block: f.block.clone(), impl_ty: Some(tyname.to_string()) });
+                                    }
+                                    out.insert(key, FnSrc { sig: f.sig.clone(), block: f.block.clone(), impl_ty: Some(tyname.to_string()) });
+                                }
+                            }
+                        }
+                    }
+                }
+            }
             Item::Impl(im) => {
-                if im.trait_.is_some() || has_cfg_verif(&im.attrs) {
+                if has_cfg_verif(&im.attrs) {
                     continue;
+                }
+                if let Some((_, tp, _)) = &im.trait_ {
+                    let tn = path_str(tp);
+                    if tn != "Iterator" && !tn.ends_with("DoubleEndedIterator") {
+                        continue;
+                    }
                 }
                 let tyname = match &*im.self_ty {
                     Type::Path(p) => p.path.segments.last().map(|s| s.ident.to_string()).unwrap_or_default(),
@@ -108,6 +145,102 @@ fn collect(file: &File, out: &mut HashMap<String, FnSrc>) {
     }
 }
 
+/// `new_iterator!(#[attr]* Name, key = expr, ...)`
+struct Invocation {
+    name: String,
+    kv: Vec<(String, Expr)>,
+}
+impl parse::Parse for Invocation {
+    fn parse(input: parse::ParseStream) -> Result<Self> {
+        let _ = input.call(Attribute::parse_outer)?;
+        let name: Ident = input.parse()?;
+        let mut kv = vec![];
+        while input.peek(Token![,]) {
+            let _: Token![,] = input.parse()?;
+            if input.is_empty() {
+                break;
+            }
+            let k: Ident = input.parse()?;
+            let _: Token![=] = input.parse()?;
+            let e: Expr = input.parse()?;
+            kv.push((k.to_string(), e));
+        }
+        Ok(Invocation { name: name.to_string(), kv })
+    }
+}
+
+/// a closure `|arena, node| body` / `|node| body` as a function source
+fn closure_src(e: &Expr, ret: &str, first_param_ty: &str) -> Option<FnSrc> {
+    let c = match e {
+        Expr::Closure(c) => c,
+        _ => return None,
+    };
+    let mut params = vec![];
+    for (i, p) in c.inputs.iter().enumerate() {
+        let name = match p {
+            Pat::Ident(pi) => pi.ident.to_string(),
+            _ => return None,
+        };
+        let ty = if name == "arena" { "&Arena<T>".to_string() } else if i == c.inputs.len() - 1 { first_param_ty.to_string() } else { return None };
+        params.push(format!("{}: {}", name, ty));
+    }
+    let body = quote::quote!(#c).to_string();
+    let body = &body[body.rfind('|').map(|_| 0).unwrap_or(0)..];
+    let _ = body;
+    let b = &c.body;
+    let src = format!("fn f({}) -> {} {{ {} }}", params.join(", "), ret, quote::quote!(#b));
+    let f: ItemFn = syn::parse_str(&src).ok()?;
+    Some(FnSrc { sig: f.sig.clone(), block: (*f.block).clone(), impl_ty: None })
+}
+
+fn collect_invocations(file: &File, out: &mut HashMap<String, FnSrc>) {
+    // defaults for `new` come from the forwarding arms of the macro itself
+    let mut default_new: HashMap<bool, Expr> = HashMap::new();
+    let mut invs: Vec<Invocation> = vec![];
+    for it in &file.items {
+        if let Item::Macro(m) = it {
+            let is_def = m.ident.as_ref().map_or(false, |i| i == "new_iterator");
+            if is_def {
+                for arm in inv::macro_arms(m).into_iter().flatten() {
+                    if arm.items.len() == 1 {
+                        if let Item::Macro(fw) = &arm.items[0] {
+                            if let Ok(iv) = fw.mac.parse_body::<Invocation>() {
+                                let de = iv.kv.iter().any(|(k, _)| k == "next_back");
+                                if let Some((_, e)) = iv.kv.iter().find(|(k, _)| k == "new") {
+                                    if iv.kv.iter().all(|(k, e2)| k == "new" || ts(e2).starts_with("MV_")) {
+                                        default_new.insert(de, e.clone());
+                                    }
+                                }
+                            }
+                        }
+                    }
+                }
+            } else if path_str(&m.mac.path) == "new_iterator" {
+                if let Ok(iv) = m.mac.parse_body::<Invocation>() {
+                    invs.push(iv);
+                }
+            }
+        }
+    }
+    for iv in invs {
+        let de = iv.kv.iter().any(|(k, _)| k == "next_back");
+        let st = if de { "DeSt" } else { "IterSt" };
+        let newe = iv.kv.iter().find(|(k, _)| k == "new").map(|(_, e)| e.clone()).or_else(|| default_new.get(&de).cloned());
+        if let Some(e) = newe {
+            if let Some(f) = closure_src(&e, st, "NodeId") {
+                out.insert(format!("{}::new", iv.name), f);
+            }
+        }
+        for (k, key) in [("next", "nextf"), ("next_back", "backf")] {
+            if let Some((_, e)) = iv.kv.iter().find(|(kk, _)| kk == k) {
+                if let Some(f) = closure_src(e, "Option<NodeId>", "&Node<T>") {
+                    out.insert(format!("{}::{}", iv.name, key), f);
+                }
+            }
+        }
+    }
+}
+
 fn has_cfg_verif(attrs: &[Attribute]) -> bool {
     attrs.iter().any(|a| ts(a).contains("indextree_verif") || ts(a).replace(' ', "").contains("cfg(test)"))
 }
@@ -119,6 +252,9 @@ fn impl_ty_to_ty(n: &str) -> Ty {
         "Node" => Ty::Node,
         "SiblingsRange" | "DetachedSiblingsRange" => Ty::Range,
         "NodeEdge" => Ty::Edge,
+        "IterArm" => Ty::IterSt,
+        "DeArm" => Ty::DeSt,
+        "Traverse" | "ReverseTraverse" => Ty::TravSt,
         _ => Ty::Unknown,
     }
 }
@@ -159,6 +295,12 @@ fn mk_sig(key: &str, f: &FnSrc) -> Sig {
                 impl_ty_to_ty(f.impl_ty.as_deref().unwrap_or(""))
             } else if s == "Option<Self>" {
                 Ty::opt(impl_ty_to_ty(f.impl_ty.as_deref().unwrap_or("")))
+            } else if s == "Option<Self::Item>" {
+                match f.impl_ty.as_deref() {
+                    Some("DeArm") | Some("IterArm") => Ty::opt(Ty::NodeId),
+                    Some("Traverse") | Some("ReverseTraverse") => Ty::opt(Ty::Edge),
+                    _ => Ty::Unknown,
+                }
             } else {
                 ty_of(t)
             }
@@ -195,6 +337,9 @@ fn translate(key: &str, f: &FnSrc, sigs: &HashMap<String, Sig>) -> R<String> {
         return Err("unsupported return type".into());
     }
     let (code, _ty, _d) = cx.block(&f.block, &Tail::FnRet)?;
+    for fp in &cx.fun_params {
+        binders.insert(1, format!("({} : node -> option nid)", fp));
+    }
     let mut out = String::new();
     for l in &cx.lifted {
         out += l;
@@ -247,12 +392,30 @@ fn main() {
         match syn::parse_file(&text) {
             Ok(file) => {
                 collect(&file, &mut fns);
+                if name == "traverse.rs" {
+                    collect_invocations(&file, &mut fns);
+                }
                 if name == "arena.rs" {
                     index_ok = check_index_impls(&file);
                 }
             }
             Err(e) => eprintln!("rs2coq: cannot parse {}: {}", path, e),
         }
+    }
+    // inventory over every source file of the crate
+    let mut inv_files = vec![];
+    for name in ["arena.rs", "debug_pretty_print.rs", "error.rs", "id.rs", "lib.rs", "node.rs", "relations.rs", "siblings_range.rs", "traverse.rs"] {
+        let path = format!("{}/{}", src, name);
+        if let Ok(text) = std::fs::read_to_string(&path) {
+            if let Ok(file) = syn::parse_file(&text) {
+                inv_files.push((name.to_string(), file));
+            }
+        }
+    }
+    let inv_out = inv::emit(&inv_files);
+    let inv_path = format!("{}/GenInventory.v", outdir);
+    if std::fs::read_to_string(&inv_path).map(|old| old != inv_out).unwrap_or(true) {
+        std::fs::write(&inv_path, inv_out).unwrap();
     }
     let mut sigs: HashMap<String, Sig> = HashMap::new();
     for (_, _, keys) in PLAN {
